@@ -102,3 +102,17 @@ def enc_sup(sup):
     if sup[0] == "seg":
         return f"(SupSeg {enc.seg(sup[1])})"
     return f"(SupTl {enc.segs(sup[1])})"
+
+
+def assert_fresh(tb, f, what):
+    """f() returns a Timeline computed from objects that are not edited in between: a caller who edits the returned
+    timeline in place must not change what the next call returns (the result is not an alias of anything kept)"""
+    r1 = f()
+    snap = [(x.start, x.end) for x in r1]
+    far = max([abs(v) for x in r1 for v in (x.start, x.end)] + [0]) + 1000
+    from pyannote.core import Segment
+    r1.add(Segment(far, far + 5))
+    for x in list(r1)[:2]:
+        r1.remove(x)
+    r2 = f()
+    assert [(x.start, x.end) for x in r2] == snap, f"editing the timeline returned by {what} changed what {what} returns next"
